@@ -99,7 +99,9 @@ def scen_from_steps(steps, kind, which, name):
 
 
 def gen_random(rng, cls, nreq):
-    """Seeded conflict-heavy scenario of one configuration class."""
+    """Seeded conflict-heavy scenario of one configuration class.  Addresses are chosen in the address space the bank
+    selector sees (a few hot blocks of one bank in different rows, some elsewhere) and mapped back through the
+    configured mem.InterleavingConverter, if any."""
     if cls == 'mi300a':
         cfg = dict(MI300A, bconv=dict(MI300A['bconv'], idx=rng.randrange(16)))
     else:
@@ -116,29 +118,35 @@ def gen_random(rng, cls, nreq):
             cfg['rowlog'], cfg['miss'] = rng.choice([1, 6, 11]), 0
         if cls in ('wide', 'wide_track'):
             cfg['width'] = rng.choice([2, 2, 3, 4])
+        if rng.random() < 0.2:      # an address converter in front (bank selection only, or storage + bank selection)
+            total = rng.choice([2, 4, 16])
+            cfg[rng.choice(['bconv', 'aconv'])] = {'isz': (1 << ilog) * rng.choice([1, 2, 8]), 'total': total,
+                                                  'idx': rng.randrange(total)}
     ilog, banks = cfg['ilog'], cfg['banks']
     block = 1 << ilog
-    # hot blocks: several in one bank (different bank-local blocks, hence possibly different rows), a few elsewhere
-    if 'bconv' in cfg:
-        bc = cfg['bconv']
-        rnd = bc['isz'] * bc['total']
-        starts = [j * rnd + bc['idx'] * bc['isz'] + h * 64 for j in rng.sample(range(0, 4096), 4) for h in (0, 1)]
-        # bank address = j*128 + h*64 ...: add blocks that collide in the component's bank (16 banks x 64 B)
-        starts = starts[:1] + [starts[0] + 8 * rnd * t for t in (1, 256, 257)] + starts[1:]
-    else:
-        b0 = rng.randrange(banks)
-        base = rng.randrange(0, 64)
-        starts = [((base + j) * banks + b0) * block for j in rng.sample(range(0, 40), rng.choice([2, 3, 4]))]
-        starts += [((base + rng.randrange(0, 3)) * banks + rng.randrange(banks)) * block for _ in range(rng.choice([0, 1, 3]))]
-    blk = min(block, 64) if 'bconv' in cfg else block
-    offs = sorted({0, rng.randrange(blk), rng.randrange(blk), (blk // 2)})
+    conv = cfg.get('bconv') or cfg.get('aconv')
+
+    def ext(x):     # inverse of InterleavingConverter.ConvertExternalToInternal for this element
+        if not conv:
+            return x
+        return (x // conv['isz']) * conv['isz'] * conv['total'] + conv['idx'] * conv['isz'] + x % conv['isz']
+
+    b0 = rng.randrange(banks)
+    base = rng.randrange(0, 64)
+    rowblocks = max(1, (1 << cfg['rowlog']) >> ilog) if cfg.get('rowlog') else 1
+    js = rng.sample(range(0, 40), rng.choice([2, 3, 4]))
+    if rowblocks > 1:       # make sure two rows of the hot bank are in play
+        js = js[:1] + [js[0] + 1, js[0] + rowblocks, js[0] + rowblocks + 1][:len(js)]
+    starts = [((base + j) * banks + b0) * block for j in js]
+    starts += [((base + rng.randrange(0, 3)) * banks + rng.randrange(banks)) * block for _ in range(rng.choice([0, 1, 3]))]
+    offs = sorted({0, rng.randrange(block), rng.randrange(block), (block // 2)})
     reqs, at = [], 1
     for _ in range(nreq):
         at += rng.choice([0, 0, 0, 0, 1, 1, 1, 2, 3, cfg['miss'], cfg['lat'] * cfg['depth'], 20])
         s = rng.choice(starts[:3]) if rng.random() < 0.7 else rng.choice(starts)
-        o = rng.choice(offs) if rng.random() < 0.8 else rng.randrange(blk)
-        n = min(rng.choice([1, 1, 2, 3, 4, 4, 8, 16, 32, 64, 64]), blk - o, 64)
-        q = {'at': at, 'k': 'r' if rng.random() < 0.5 else 'w', 'a': s + o, 'n': n, 'src': rng.randrange(2)}
+        o = rng.choice(offs) if rng.random() < 0.8 else rng.randrange(block)
+        n = min(rng.choice([1, 1, 2, 3, 4, 4, 8, 16, 32, 64, 64]), block - o, 64)
+        q = {'at': at, 'k': 'r' if rng.random() < 0.5 else 'w', 'a': ext(s + o), 'n': n, 'src': rng.randrange(2)}
         if q['k'] == 'w':
             q['d'] = [rng.randrange(1, 256) for _ in range(n)]
             mode = rng.randrange(6)
@@ -237,13 +245,21 @@ B, P, L = DEVS
 HYPS = [[], [B], [P], [L], [B, P], [B, L], [P, L], [B, P, L]]
 
 
-def banked_explains(ctx, runs, hyps, tag, workers=6, timeout=1500):
-    """One TLC run of BankedMemTrace over many recorded runs: for run i the set of indexes into `hyps` (deviation
-    sets) under which BankedMem has a behaviour that explains the whole run."""
-    recs, starts = [], []
+def hyps_for(cfg):
+    """Deviation sets worth trying for a configuration: row-order deviations need row tracking, LaneOvertake needs a
+    pipeline wider than one lane (their guards are false otherwise)."""
+    use = [d for d in DEVS if (d == L and cfg.get('width', 1) > 1) or (d != L and cfg.get('track'))]
+    return [h for h in HYPS if all(d in use for d in h)]
+
+
+def banked_explains(ctx, runs, hyps_of, tag, workers=6, timeout=1500):
+    """One TLC run of BankedMemTrace over many recorded runs: for run i the list of those deviation sets of
+    hyps_of(reset record) under which BankedMem has a behaviour that explains the whole run."""
+    recs, starts, hyps = [], [], []
     for r in runs:
         r = copy.deepcopy(r)
-        r[0]['devs'] = hyps
+        hyps.append(hyps_of(r[0]))
+        r[0]['devs'] = hyps[-1]
         starts.append(len(recs) + 1)
         recs += r
     p = os.path.join(ctx.scratch, 'banked_%s.ndjson' % tag)
@@ -253,9 +269,12 @@ def banked_explains(ctx, runs, hyps, tag, workers=6, timeout=1500):
     if not res.completed or res.violated:
         raise vlib.Infra('BankedMemTrace run failed:\n' + res.out[-2500:])
     ctx.cov['trace_states'] = ctx.cov.get('trace_states', 0) + res.distinct
-    ok = {i: set() for i in range(len(runs))}
+    ok = {i: [] for i in range(len(runs))}
     for m in re.finditer(r'<<"RUNOK", (\d+), (\d+)>>', res.out):
-        ok[starts.index(int(m.group(1)))].add(int(m.group(2)) - 1)
+        i = starts.index(int(m.group(1)))
+        h = hyps[i][int(m.group(2)) - 1]
+        if h not in ok[i]:
+            ok[i].append(h)
     return ok
 
 
@@ -263,12 +282,12 @@ def name_deviation(accepted, cfg):
     """Which deviation(s) the failing run needs: the first single deviation that explains it alone (a pipeline wider
     than one lane is blamed first where it can be the cause: only there LaneOvertake is enabled at all), else the
     smallest set that does; 'none' if BankedMem cannot explain the run at all."""
-    if 0 in accepted:
+    if [] in accepted:
         return 'model_accepts_without_deviation'
-    order = [3, 1, 2] if cfg.get('width', 1) > 1 else [1, 2, 3]
-    for i in order + [4, 5, 6, 7]:
-        if i in accepted:
-            return '+'.join(HYPS[i])
+    order = [[L], [B], [P]] if cfg.get('width', 1) > 1 else [[B], [P], [L]]
+    for h in order + HYPS[4:]:
+        if h in accepted:
+            return '+'.join(h)
     return 'none'
 
 
@@ -300,7 +319,7 @@ def handle_failures(ctx, drv, scen, tfile, bad, cap):
         else:   # the diagnostic oracle and TLC disagree on the minimised run: keep the original
             chosen.append((scen[i], parts[i][1], bad[i]))
     ctx.log('minimised runs confirmed by FlatMemTrace: %d of %d' % (len(mbad), len(mins)))
-    acc = banked_explains(ctx, [c[1] for c in chosen], HYPS, 'classify')
+    acc = banked_explains(ctx, [c[1] for c in chosen], hyps_for, 'classify')
     ctx.log('classified')
     results = [(sc, recs, lw[0], lw[1], name_deviation(acc[j], recs[0])) for j, (sc, recs, lw) in enumerate(chosen)]
     for sc, recs, line, why, dev in results:
@@ -312,6 +331,11 @@ def handle_failures(ctx, drv, scen, tfile, bad, cap):
         what = ('C17: real simplebankedmemory trace is not a behaviour of FlatMem: %s at event #%d %s; deviation=%s; '
                 'cfg=%s reqs=%s' % (why, line, json.dumps({k: v for k, v in ev.items() if k not in ('seq',)})[:160],
                                     dev, json.dumps(sc['cfg'], sort_keys=True), reqs[:8]))
+        if ctx.known_match(sig) is None:
+            nviol = len(ctx.violations)
+            if nviol >= 5:      # enough replay files; the rest is counted
+                ctx.cov['violations_not_listed'] = ctx.cov.get('violations_not_listed', 0) + 1
+                continue
         ctx.report_failure(what, sig, {'driver': {'cmd': 'c17', 'scenario': sc},
                                        'trace_spec': [FLAT['dirs'], FLAT['module'], FLAT['cfg']],
                                        'failing_index': line, 'trace': recs})
@@ -488,8 +512,8 @@ def run(ctx, selftest=False):
     sel = [i for i in good if i < nreplay and len(scen[i]['reqs']) <= 6]
     if not thorough:
         sel = sel[:40]
-    acc = banked_explains(ctx, [parts[i][1] for i in sel], [DEVS], 'bind')
-    unexplained = [sel[j] for j in range(len(sel)) if 0 not in acc[j]]
+    acc = banked_explains(ctx, [parts[i][1] for i in sel], lambda r: [DEVS], 'bind')
+    unexplained = [sel[j] for j in range(len(sel)) if not acc[j]]
     if unexplained:
         msg = 'BankedMem (as implemented) does not explain property-conforming runs %s, e.g. %s' % (
             unexplained[:5], json.dumps(scen[unexplained[0]])[:600])
